@@ -503,6 +503,11 @@ def scalar_boundaries(rng, bits=256):
             tl = (bound >> 192) << 192
             v += [tl, tl + (1 << 192) - 1, tl + rng.getrandbits(192), (tl + (bound & ((1 << 192) - 1)) + rng.getrandbits(120)) % top]
     if bits == 256:
+        # degenerate GLV decompositions: multiples of the eigenvalue lambda = r - x^2 (c0 = 0, c1 = m), their negatives, and c0 = c1
+        LAM = 0x73eda753299d7d483339d80809a1d804a7780001fffcb7fcfffffffe00000001
+        for mm in (1, 2, 3, (1 << 64) + 1, (1 << 127) - 1, rng.getrandbits(100)):
+            v += [(mm * LAM) % R, (-mm * LAM) % R, (mm * (1 + LAM)) % R, ((mm * LAM) % R + R) % top]
+    if bits == 256:
         # GLV intermediate round(b2) = floor(v1_2*k/r) landing on 64-bit limb boundaries (low limb 0 / all-ones, high limb 0 / nonzero)
         V12 = 0xac45a4010001a40200000000ffffffff
         for m in (1, 2, 1 << 62, (1 << 63) + 12345, rng.randrange(1, V12 >> 64)):
@@ -529,6 +534,9 @@ def gen_scalar(rng, n, tier):
         sub = [E.gen, E.rand_subgroup_point(rng, 32), E.rand_subgroup_point(rng, 32), None]
         anyp = sub + [E.rand_curve_point(rng), E.rand_curve_point(rng)]
         ks = rng.sample(sb, min(len(sb), n)) + [0, 1, R, (1 << 256) - 1, R - 1, 2 * R + 1]
+        # scalars whose decomposition is degenerate (a lane with no digits at all): multiples of the G1 eigenvalue, pure powers of |x|
+        LAM_ = 0x73eda753299d7d483339d80809a1d804a7780001fffcb7fcfffffffe00000001
+        ks += [LAM_, (2 * LAM_) % R, (R - LAM_) % R, (rng.getrandbits(100) * LAM_) % R] if pfx == "g1_" else [BLS_X, BLS_X ** 2, BLS_X ** 3, 5 * BLS_X ** 2, (BLS_X ** 3) * rng.getrandbits(60) % R]
         for k in ks:
             p = rng.choice(sub)
             L.append("%smul %s %s %s" % (pfx, E.jac(p, rng), hx(k, 256), rng.choice(["n", "a"])))
@@ -1276,7 +1284,11 @@ def gen_lqibe(rng, n, tier):
     S = WkScenario(rng); L = S.L
     L.append("lq_setup %s" % S.stream(49 * 400)); nP = 1; nM = 1
     msks = [0]
-    for sval in (R, R + 5, (1 << 256) - 1, 0, 1, 1 << 255, (1 << 255) + 5, 2 * R + 3, R - 1):
+    LAMBDA1 = 0x73eda753299d7d483339d80809a1d804a7780001fffcb7fcfffffffe00000001      # eigenvalue of the G1 endomorphism (= r - x^2)
+    # master scalars whose GLV halves are degenerate: c0 = 0 with c1 != 0 (multiples of lambda), c1 = 0, and |c0| = |c1|
+    degenerate = [(mm * LAMBDA1) % R for mm in (1, 2, 3, (1 << 64) + 1, rng.getrandbits(100))] + [(-mm * LAMBDA1) % R for mm in (1, rng.getrandbits(90))] \
+                 + [(mm * (1 + LAMBDA1)) % R for mm in (1, rng.getrandbits(100))]
+    for sval in (R, R + 5, (1 << 256) - 1, 0, 1, 1 << 255, (1 << 255) + 5, 2 * R + 3, R - 1) + tuple(degenerate):
         L.append("lq_msk %s" % sval.to_bytes(32, "little").hex()); msks.append(nM); nM += 1
     ids = []
     for h in [bytes(rng.getrandbits(8) for _ in range(48)) for _ in range(max(2, n // 3))] + [b"\x00" * 48, b"\xff" * 48]:
